@@ -1,6 +1,7 @@
 import Drv.Index
 import NpsVerif.Model.SetItem
 import NpsVerif.Model.Reduce
+import NpsVerif.Model.ArgReduce
 namespace Drv
 open Lean Model
 
@@ -66,5 +67,15 @@ def reduce (j : Json) : Json :=
   let hasId := (fld j "identity").getBool?.toOption.getD true
   let l := Model.reduceRows (fun seg => seg) (if hasId then some [] else none) [] a
   obj [("L", optJ l), ("S", toJson rows)]
+
+/-- op `C05.argred`: argmax / argmin along rows on integer cell values; S = first position of the row's
+extremum (0 for an empty row: unspecified, masked by the harness) -/
+def argred (j : Json) : Json :=
+  let rows := jIntRows (fld j "rows")
+  let isMin := (fld j "min").getBool?.toOption.getD false
+  let a := RA.ofRows rows
+  let l := if isMin then Model.argminRows a else Model.argmaxRows a
+  let s := rows.map (fun r => (r.findIdx? (fun x => x == (if isMin then Model.minOf r else Model.maxOf r))).getD 0)
+  obj [("L", optJ l), ("S", toJson s)]
 end C05
 end Drv
